@@ -10,6 +10,7 @@ import (
 	"strings"
 	"sync"
 	"sync/atomic"
+	"unicode/utf8"
 
 	gogitcfg "github.com/go-git/go-git/v6/config"
 	format "github.com/go-git/go-git/v6/plumbing/format/config"
@@ -823,6 +824,21 @@ func c48P3(c *fw.Ctx, g *fw.Git) {
 		x, y := fails[a], fails[b]
 		return x.kind+x.val+x.field+x.sub < y.kind+y.val+y.field+y.sub
 	})
+	// one defect, one key: go-git's decoder refuses bytes that are not valid
+	// UTF-8 wherever they stand, so every case carrying such a byte in the
+	// subsection name or the value fails to load whatever the field
+	const nonUTF8Key = "P3 go-git cannot read its own output: bytes that are not valid UTF-8 in a subsection name or value"
+	{
+		var rest []p3fail
+		for _, f := range fails {
+			if f.kind == "go-git cannot read its own output" && (!utf8.ValidString(f.sub) || !utf8.ValidString(f.val)) {
+				c.Fail(nonUTF8Key, nonUTF8Key+" :: "+f.field+" :: "+f.detail, map[string]any{"field": f.field, "subsection": f.sub, "value": f.val, "kind": f.kind, "detail": f.detail})
+				continue
+			}
+			rest = append(rest, f)
+		}
+		fails = rest
+	}
 	perKV := map[string]map[string]bool{}
 	perKFV := map[string]map[string]bool{}
 	for _, f := range fails {
